@@ -4,7 +4,7 @@
   invariants `StoresOk` / `RangesOk` by the OTA primitives.
 -/
 import MySensors.Model.SpecOta
-import MySensors.Lemmas.AList
+import MySensors.Lemmas.GwRel
 import MySensors.Lemmas.Ota
 import MySensors.Properties.C02
 
@@ -652,7 +652,7 @@ theorem sched_nil (t v : Int) (g : GW) : Sched t v g g [] := by
 theorem scheduleNode_unknown (t v : Int) (g : GW) (nid : Int) (h : aget nid g.sensors = none) :
     scheduleNode t v g nid = g := by simp [scheduleNode, h]
 
-theorem sched_one (t v : Int) (g : GW) (nid : Int) (hok : StoresOk g.ota) : Sched t v g (scheduleNode t v g nid) [nid] := by
+theorem sched_one (t v : Int) (g : GW) (nid : Int) : Sched t v g (scheduleNode t v g nid) [nid] := by
   cases hk : aget nid g.sensors with
   | none =>
     rw [scheduleNode_unknown t v g nid hk]
@@ -667,7 +667,7 @@ theorem sched_one (t v : Int) (g : GW) (nid : Int) (hok : StoresOk g.ota) : Sche
     have e : scheduleNode t v g nid = setNode { g with ota := { g.ota with unstarted := aerase nid g.ota.unstarted, started := aerase nid g.ota.started, requested := aset nid (t, v) g.ota.requested } } nid { nd with reboot := true } := by
       simp [scheduleNode, hk]
     rw [e]
-    refine ⟨rfl, fun n => ?_, fun _ => ⟨nodup_aset _ _ _ hok.ndReq, nodup_aerase _ _ hok.ndUnst, nodup_aerase _ _ hok.ndSt, ?_, ?_, ?_⟩, ?_, fun k => ?_, rfl⟩
+    refine ⟨rfl, fun n => ?_, fun hok => ⟨nodup_aset _ _ _ hok.ndReq, nodup_aerase _ _ hok.ndUnst, nodup_aerase _ _ hok.ndSt, ?_, ?_, ?_⟩, ?_, fun k => ?_, rfl⟩
     · by_cases hn : n = nid
       · subst hn
         simp only [List.mem_singleton, knownNode, hk, Option.isSome_some, and_self, ↓reduceIte]
@@ -724,12 +724,308 @@ theorem Sched.cons {t v : Int} {g g1 g2 : GW} {x : Int} {xs : List Int}
     have f2 := h2.frame
     rw [← f1, ← f2]
 
-theorem sched_foldl (t v : Int) (nids : List Int) (g : GW) (hok : StoresOk g.ota) :
+theorem sched_foldl (t v : Int) (nids : List Int) (g : GW) :
     Sched t v g (nids.foldl (scheduleNode t v) g) nids := by
   induction nids generalizing g with
   | nil => exact sched_nil t v g
-  | cons x xs ih =>
-    have h1 := sched_one t v g x hok
-    exact h1.cons (ih _ (h1.ok hok))
+  | cons x xs ih => exact (sched_one t v g x).cons (ih _)
+
+theorem lookup_append_none {κ} [DecidableEq κ] (k : κ) (v : ν) (l : List (κ × ν)) (h : lookup k l = none) :
+    lookup k (l ++ [(k, v)]) = some v := by
+  induction l with
+  | nil => simp [lookup]
+  | cons p l ih =>
+    obtain ⟨k', v'⟩ := p
+    by_cases h1 : k = k'
+    · subst h1; simp [lookup] at h
+    · simp only [lookup, h1, ↓reduceIte] at h
+      simp [lookup, h1, ih h]
+
+theorem lookup_map_replace (key : Int × Int) (fw : Fw) (l : FwTable) (h : (lookup key l).isSome) :
+    lookup key (l.map fun kv => if kv.1 = key then (kv.1, fw) else kv) = some fw := by
+  induction l with
+  | nil => simp [lookup] at h
+  | cons p l ih =>
+    obtain ⟨k', v'⟩ := p
+    by_cases h1 : key = k'
+    · subst h1; simp [lookup]
+    · have h2 : ¬ k' = key := fun e => h1 e.symm
+      simp only [lookup, h1, ↓reduceIte] at h
+      simp [lookup, h1, h2, ih h]
+
+theorem lookup_storeFirmware_same (fws : FwTable) (key : Int × Int) (fw : Fw) :
+    lookup key (storeFirmware fws key fw) = some fw := by
+  unfold storeFirmware
+  cases h : lookup key fws with
+  | none => exact lookup_append_none key fw fws h
+  | some x => exact lookup_map_replace key fw fws (by rw [h]; rfl)
+
+theorem mem_storeFirmware (fws : FwTable) (key : Int × Int) (fw : Fw) :
+    ∀ kv ∈ storeFirmware fws key fw, kv ∈ fws ∨ kv.2 = fw := by
+  intro kv hkv
+  unfold storeFirmware at hkv
+  cases h : lookup key fws with
+  | none =>
+    simp only [h, List.mem_append, List.mem_singleton] at hkv
+    rcases hkv with hkv | hkv
+    · exact Or.inl hkv
+    · subst hkv; exact Or.inr rfl
+  | some x =>
+    simp only [h, List.mem_map] at hkv
+    obtain ⟨a, ha, e⟩ := hkv
+    by_cases h1 : a.1 = key
+    · simp [h1] at e; subst e; exact Or.inr rfl
+    · simp [h1] at e; subst e; exact Or.inl ha
+
+/-- the gateway after the image of an update call (if any) was stored -/
+def loadImage (g : GW) (t v : Int) : Option (List Nat) → GW
+  | some img => { g with ota := { g.ota with firmware := storeFirmware g.ota.firmware (t, v) (prepareFw img) } }
+  | none => g
+
+theorem makeUpdate_rejected (g : GW) (nids : List Int) (t v : Int) (image : Option (List Nat))
+    (h : updateAccepted g t v image = false) : makeUpdate g nids t v image = g := by
+  unfold makeUpdate
+  by_cases hr : 0 ≤ t ∧ t ≤ 0xFFFF ∧ 0 ≤ v ∧ v ≤ 0xFFFF
+  · rw [if_neg (not_not_intro hr)]
+    have hd : decide (0 ≤ t ∧ t ≤ 0xFFFF ∧ 0 ≤ v ∧ v ≤ 0xFFFF) = true := decide_eq_true hr
+    rw [updateAccepted, hd, Bool.true_and] at h
+    cases image with
+    | some img =>
+      simp only [imageAccepted, decide_eq_false_iff_not] at h
+      have : (prepareFw img).blocks > 0xFFFF := by omega
+      simp only [this, ↓reduceIte]
+    | none =>
+      simp only [imageAccepted] at h
+      have hn : (lookup (t, v) g.ota.firmware).isNone = true := by
+        cases hl : lookup (t, v) g.ota.firmware <;> simp [hl] at h ⊢
+      simp only [hn, ↓reduceIte]
+  · rw [if_pos hr]
+
+theorem makeUpdate_accepted (g : GW) (nids : List Int) (t v : Int) (image : Option (List Nat))
+    (h : updateAccepted g t v image = true) :
+    makeUpdate g nids t v image = nids.foldl (scheduleNode t v) (loadImage g t v image) := by
+  unfold makeUpdate
+  simp only [updateAccepted, Bool.and_eq_true, decide_eq_true_eq] at h
+  obtain ⟨hr, hi⟩ := h
+  rw [if_neg (not_not_intro hr)]
+  cases image with
+  | some img =>
+    simp only [imageAccepted, decide_eq_true_eq] at hi
+    have : ¬ (prepareFw img).blocks > 0xFFFF := by omega
+    simp only [this, ↓reduceIte, loadImage]
+  | none =>
+    simp only [imageAccepted] at hi
+    have : (lookup (t, v) g.ota.firmware).isNone = false := by
+      cases hl : lookup (t, v) g.ota.firmware <;> simp [hl] at hi ⊢
+    simp [this, loadImage]
+
+/-- after an accepted update call firmware for `(t, v)` is available -/
+theorem loadImage_available (g : GW) (t v : Int) (image : Option (List Nat))
+    (h : updateAccepted g t v image = true) : (lookup (t, v) (loadImage g t v image).ota.firmware).isSome := by
+  simp only [updateAccepted, Bool.and_eq_true] at h
+  cases image with
+  | some img => simp [loadImage, lookup_storeFirmware_same]
+  | none => simpa [loadImage, imageAccepted] using h.2
+
+theorem loadImage_stores (g : GW) (t v : Int) (image : Option (List Nat)) :
+    (loadImage g t v image).ota.requested = g.ota.requested ∧ (loadImage g t v image).ota.unstarted = g.ota.unstarted ∧
+    (loadImage g t v image).ota.started = g.ota.started ∧ (loadImage g t v image).sensors = g.sensors ∧
+    (loadImage g t v image).const = g.const := by
+  cases image <;> exact ⟨rfl, rfl, rfl, rfl, rfl⟩
+
+theorem loadImage_abs (g : GW) (t v : Int) (image : Option (List Nat)) (n : Int) :
+    absSession (loadImage g t v image).ota n = absSession g.ota n := by
+  obtain ⟨a, b, c, _⟩ := loadImage_stores g t v image
+  exact abs_congr (by rw [a]) (by rw [b]) (by rw [c])
+
+theorem loadImage_ok (g : GW) (t v : Int) (image : Option (List Nat)) (h : StoresOk g.ota) :
+    StoresOk (loadImage g t v image).ota := by
+  cases image with
+  | none => exact h
+  | some img => exact ⟨h.ndReq, h.ndUnst, h.ndSt, h.reqUnst, h.reqSt, h.unstSt⟩
+
+theorem loadImage_ranges (g : GW) (t v : Int) (image : Option (List Nat)) (h : RangesOk g.ota)
+    (ha : updateAccepted g t v image = true) (hb : imageIsBytes image) : RangesOk (loadImage g t v image).ota := by
+  cases image with
+  | none => exact h
+  | some img =>
+    refine ⟨h.fids, ?_⟩
+    intro kv hkv
+    rcases mem_storeFirmware _ _ _ kv hkv with hkv | hkv
+    · exact h.fws kv hkv
+    · rw [hkv]
+      simp only [updateAccepted, imageAccepted, Bool.and_eq_true, decide_eq_true_eq] at ha
+      refine ⟨by omega, ?_⟩
+      rw [prepareFw_crc]
+      exact crcModbus_lt _ (prepareFw_isBytes img hb)
+
+/-- **the update call against the automaton**: sessions, firmware, invariants, reboot flags -/
+structure UpdateSpec (g g' : GW) (nids : List Int) (t v : Int) (image : Option (List Nat)) : Prop where
+  session : ∀ n, absSession g'.ota n =
+    specUpdate (updateAccepted g t v image) (decide (n ∈ nids)) (knownNode g n) t v (absSession g.ota n)
+  available : updateAccepted g t v image = true → (lookup (t, v) g'.ota.firmware).isSome
+  ok : StoresOk g.ota → StoresOk g'.ota
+  ranges : RangesOk g.ota → imageIsBytes image → RangesOk g'.ota
+  nodes : ∀ k, aget k g'.sensors = (aget k g.sensors).map fun n =>
+    { n with reboot := n.reboot || (updateAccepted g t v image && decide (k ∈ nids)) }
+  const : g'.const = g.const
+
+theorem makeUpdate_spec (g : GW) (nids : List Int) (t v : Int) (image : Option (List Nat)) :
+    UpdateSpec g (makeUpdate g nids t v image) nids t v image := by
+  cases ha : updateAccepted g t v image with
+  | false =>
+    rw [makeUpdate_rejected g nids t v image ha]
+    refine ⟨fun n => by simp [specUpdate, ha], fun h => (by rw [ha] at h; cases h), id, fun h _ => h, fun k => ?_, rfl⟩
+    cases aget k g.sensors <;> simp [ha]
+  | true =>
+    rw [makeUpdate_accepted g nids t v image ha]
+    obtain ⟨s1, s2, s3, s4, s5⟩ := loadImage_stores g t v image
+    have hs := sched_foldl t v nids (loadImage g t v image)
+    refine ⟨fun n => ?_, fun _ => ?_, fun hok => hs.ok (loadImage_ok g t v image hok), fun hr hb => ?_, fun k => ?_, ?_⟩
+    · rw [hs.session n, loadImage_abs]
+      simp [specUpdate, knownNode, s4, ha]
+    · rw [hs.fw]; exact loadImage_available g t v image ha
+    · have hr' := loadImage_ranges g t v image hr ha hb
+      refine ⟨fun p hp => ?_, by rw [hs.fw]; exact hr'.fws⟩
+      rcases hs.mem p hp with hp | hp
+      · exact hr'.fids p hp
+      · rw [hp]
+        simp only [updateAccepted, Bool.and_eq_true, decide_eq_true_eq] at ha
+        exact ha.1
+    · rw [hs.nodes k, s4]; simp [ha]
+    · have := congrArg GW.const hs.frame
+      simp only at this
+      rw [this, s5]
+
+/-! ### the session part of the refinement needs neither a decoded request nor the range invariant -/
+
+structure RefinesS (g : GW) (m : Msg) (r : StreamRes) (s' : Session) : Prop where
+  session : absSession r.g.ota m.node = s'
+  others : ∀ n, n ≠ m.node → absSession r.g.ota n = absSession g.ota n
+  fw : r.g.ota.firmware = g.ota.firmware
+  frame : { r.g with ota := g.ota } = g
+  ok : StoresOk r.g.ota
+  mem : ∀ p, p ∈ r.g.ota.requested ∨ p ∈ r.g.ota.unstarted ∨ p ∈ r.g.ota.started →
+    p ∈ g.ota.requested ∨ p ∈ g.ota.unstarted ∨ p ∈ g.ota.started
+
+theorem Refines.toS {g : GW} {m : Msg} {r : StreamRes} {sp : Session × Option Msg} (h : Refines g m r sp)
+    (hm : ∀ p, p ∈ r.g.ota.requested ∨ p ∈ r.g.ota.unstarted ∨ p ∈ r.g.ota.started →
+      p ∈ g.ota.requested ∨ p ∈ g.ota.unstarted ∨ p ∈ g.ota.started) : RefinesS g m r sp.1 :=
+  ⟨h.session, h.others, h.fw, h.frame, h.ok, hm⟩
+
+theorem config_pick_g (g : GW) (m : Msg) (ws : List Nat) (fid : Int × Int) (o' : OtaState)
+    (hw : fwHexToInt m.payload 5 = some ws) (hp : pickConfig g.ota m.node = some (fid, o')) :
+    (otaConfigResponse g m).g = { g with ota := o' } := by
+  unfold otaConfigResponse
+  simp only [hw, hp]
+  split
+  · rw [configReply_g]
+  · rfl
+
+theorem block_pick_g (g : GW) (m : Msg) (rt rv blk : Nat) (o' : OtaState)
+    (hw : fwHexToInt m.payload 3 = some [rt, rv, blk]) (hp : pickBlock g.ota m.node = some o') :
+    (otaBlockResponse g m).g = { g with ota := o' } := by
+  unfold otaBlockResponse
+  simp only [hw, hp]
+  split
+  · rw [blockReply_g]
+  · rfl
+
+theorem refinesS_same (g : GW) (m : Msg) (r : StreamRes) (hg : r.g = g) (hok : StoresOk g.ota) :
+    RefinesS g m r (absSession g.ota m.node) := by
+  refine ⟨?_, ?_, ?_, ?_, ?_, ?_⟩ <;> rw [hg]
+  · intro _ _; rfl
+  · exact hok
+  · intro _ h; exact h
+
+theorem refinesS_noop (g : GW) (m : Msg) (hok : StoresOk g.ota) :
+    RefinesS g m { g := g } (absSession g.ota m.node) := refinesS_same g m _ rfl hok
+
+theorem refinesS_of_migrates (g : GW) (m : Msg) (r : StreamRes) (o' : OtaState) (s' : Session)
+    (hg : r.g = { g with ota := o' }) (hm : Migrates g.ota o' m.node s') : RefinesS g m r s' := by
+  refine ⟨?_, ?_, ?_, ?_, ?_, ?_⟩
+  · rw [hg]; exact hm.self
+  · rw [hg]; exact hm.others
+  · rw [hg]; exact hm.fw
+  · rw [hg]
+  · rw [hg]; exact hm.ok
+  · rw [hg]; exact hm.mem
+
+theorem refinesS_config (g : GW) (m : Msg) (hok : StoresOk g.ota) :
+    RefinesS g m (otaConfigResponse g m)
+      (if (fwHexToInt m.payload 5).isSome then (specConfig [] 0 m (absSession g.ota m.node)).1 else absSession g.ota m.node) := by
+  cases hw : fwHexToInt m.payload 5 with
+  | none => rw [config_malformed g m hw]; exact refinesS_noop g m hok
+  | some ws =>
+    simp only [Option.isSome_some, ↓reduceIte]
+    cases ha : absSession g.ota m.node with
+    | requested fid =>
+      have h := abs_requested_inv ha
+      exact refinesS_of_migrates g m _ _ _ (config_pick_g g m ws fid _ hw (pickConfig_requested h)) (migrates_moveReqUnst hok h)
+    | offered fid =>
+      obtain ⟨h1, h2⟩ := abs_offered_inv ha
+      exact refinesS_of_migrates g m _ _ _ (config_pick_g g m ws fid _ hw (pickConfig_unstarted h1 h2)) (migrates_touchUnst hok h1 h2)
+    | fetching fid =>
+      obtain ⟨h1, h2, _⟩ := abs_fetching_inv ha
+      rw [config_nopick g m (pickConfig_none h1 h2)]
+      have := refinesS_noop g m hok
+      rw [ha] at this; exact this
+    | idle =>
+      obtain ⟨h1, h2, _⟩ := abs_idle_inv ha
+      rw [config_nopick g m (pickConfig_none h1 h2)]
+      have := refinesS_noop g m hok
+      rw [ha] at this; exact this
+
+theorem block_not_three (g : GW) (m : Msg) (h : ¬ ∃ rt rv blk, fwHexToInt m.payload 3 = some [rt, rv, blk]) :
+    otaBlockResponse g m = { g := g } := by
+  cases hw : fwHexToInt m.payload 3 with
+  | none => exact block_malformed g m hw
+  | some ws =>
+    obtain ⟨rt, rv, blk, e⟩ := fwHexToInt_three _ _ hw
+    exact absurd ⟨rt, rv, blk, by rw [hw, e]⟩ h
+
+theorem refinesS_block (g : GW) (m : Msg) (hok : StoresOk g.ota) :
+    RefinesS g m (otaBlockResponse g m)
+      (if (fwHexToInt m.payload 3).isSome then (specBlock [] 0 m 0 0 0 (absSession g.ota m.node)).1 else absSession g.ota m.node) := by
+  cases hw : fwHexToInt m.payload 3 with
+  | none => rw [block_malformed g m hw]; exact refinesS_noop g m hok
+  | some ws =>
+    obtain ⟨rt, rv, blk, e⟩ := fwHexToInt_three _ _ hw
+    subst e
+    simp only [Option.isSome_some, ↓reduceIte]
+    cases ha : absSession g.ota m.node with
+    | requested fid =>
+      have h := abs_requested_inv ha
+      have hsome := isSome_of_eq_some h
+      rw [block_nopick g m (pickBlock_none (hok.reqUnst _ hsome) (hok.reqSt _ hsome))]
+      have := refinesS_noop g m hok
+      rw [ha] at this; exact this
+    | offered fid =>
+      obtain ⟨_, h2⟩ := abs_offered_inv ha
+      exact refinesS_of_migrates g m _ _ _ (block_pick_g g m rt rv blk _ hw (pickBlock_unstarted h2)) (migrates_moveUnstSt hok h2)
+    | fetching fid =>
+      obtain ⟨_, h2, h3⟩ := abs_fetching_inv ha
+      exact refinesS_of_migrates g m _ _ _ (block_pick_g g m rt rv blk _ hw (pickBlock_started h2 h3)) (migrates_touchSt hok h2 h3)
+    | idle =>
+      obtain ⟨_, h2, h3⟩ := abs_idle_inv ha
+      rw [block_nopick g m (pickBlock_none h2 h3)]
+      have := refinesS_noop g m hok
+      rw [ha] at this; exact this
+
+theorem RefinesS.ranges {g : GW} {m : Msg} {r : StreamRes} {s' : Session} (h : RefinesS g m r s')
+    (hr : RangesOk g.ota) : RangesOk r.g.ota :=
+  ⟨fun p hp => hr.fids p (h.mem p hp), by rw [h.fw]; exact hr.fws⟩
+
+/-- every stream responder: the session of the requesting node moves as the automaton says
+    (never out of `idle`), other nodes and the firmware table are untouched, invariants hold -/
+theorem streamResBy_sessions (h : HandlerId) (g : GW) (m : Msg) (hok : StoresOk g.ota) :
+    ∃ s', RefinesS g m (streamResBy h g m) s' ∧ (absSession g.ota m.node = .idle → s' = .idle) := by
+  unfold streamResBy
+  split
+  · refine ⟨_, refinesS_config g m hok, ?_⟩
+    intro hi; rw [hi]; split <;> rfl
+  · refine ⟨_, refinesS_block g m hok, ?_⟩
+    intro hi; rw [hi]; split <;> rfl
+  · exact ⟨_, refinesS_same g m _ rfl hok, id⟩
 
 end MySensors
